@@ -21,6 +21,14 @@ Named state (the anchors of C18):
 * `pybtex/errors.py` – `strict`, `error_code`, `captured_errors`; `report_error`, `capture()`
   (after the committed repair: leaving restores the value seen on entry), `set_strict_mode`.
 * `pybtex/plugin/__init__.py` – `_RUNTIME_PLUGINS`, read by `find_plugin`.
+* `pybtex/cmdline.py` `CommandLine.main` – the one public entry point that WRITES `strict` and READS
+  `error_code` (`Call.cliMain`); follows `proposed_fixes/C18-3.diff` (status of this run only, strict
+  mode put back); the pinned behaviour is `cliMainPinned`.
+
+* a reader's own state: macro copy, database, `wanted_entries` / `citations` (reading filtered by a
+  citation list; the set grows by the cross-reference targets of the entries kept) and the
+  unnamed-entry counter for key-less entries (follows `proposed_fixes/C18-4.diff`: set when the reader
+  is made; the pinned tree set it back for every file: `readFilesPinned`).
 
 Everything else pybtex executes (the `.bst` interpreter, the Python styles and backends, the YAML /
 BibTeXML readers, the writers, name parsing and formatting proper) is code that reaches the named
@@ -134,6 +142,7 @@ inductive Err where
   | invalidName (name : Str)               -- InvalidNameString: too many commas
   | pluginNotFound (group name : Str)      -- PluginNotFound
   | indexError                             -- `_split_names(names)[n - 1]` out of range (not a pybtex error)
+  | noSuchName (n : Int) (names : Str)     -- BibTeXError: there is no name number n in "names"
   | other (tag : Str)                      -- any exception raised / problem reported by the opaque code
   deriving DecidableEq, Repr
 
@@ -148,6 +157,10 @@ inductive Cmd where
   | string (name : Str) (val : List Part)
   | preamble (val : List Part)
   | entry (type key : Str) (fields : List (Str × List Part))
+  /-- an entry written without a key (`@misc{title = "A"}`), legal for a reader made with
+  `keyless_entries=True` (for which, in turn, entries WITH a key are syntax errors: a document is
+  read either by a key-less reader or by an ordinary one — tokenising is C01's subject) -/
+  | keyless (type : Str) (fields : List (Str × List Part))
   deriving DecidableEq, Repr
 
 abbrev Doc := List Cmd
@@ -165,6 +178,14 @@ structure Reader where
   macros : Table                  -- `CaseInsensitiveDict`: keys lower-cased
   entries : List Entry
   preamble : List Str
+  /-- `BibliographyData.wanted_entries`: `None`, or a `CaseInsensitiveSet` (lower-cased keys) that GROWS while
+  reading (the cross-reference target of every entry kept is added) -/
+  wanted : Option (List Str) := none
+  /-- `BibliographyData.citations`: lower-cased key ↦ the spelling the caller cited it with -/
+  citations : Table := []
+  /-- `Parser.unnamed_entry_counter`: the number the next key-less entry gets.  Set when the reader is
+  made (proposed_fixes/C18-4.diff); on the pinned tree `parse_string` set it back to 1 for every file. -/
+  unnamed : Nat := 1
   deriving DecidableEq, Repr
 
 /-- Arguments of the memoised `_format_name(names, n, format)`. -/
@@ -179,6 +200,7 @@ inductive LowCmd where
   | string (name : Str) (val : List Str)
   | preamble (val : List Str)
   | entry (type key : Str) (fields : List (Str × List Str))
+  | keyless (type : Str) (fields : List (Str × List Str))          -- key `None`
   deriving DecidableEq, Repr
 
 inductive Result where
@@ -188,6 +210,7 @@ inductive Result where
   | raised (e : Err)
   | internal                                     -- the memo wrapper itself failed (shown unreachable)
   | captured (r : Result) (errs : List Err)      -- `with capture() as errs: r = …`
+  | exit (code : Nat)                            -- `SystemExit(code)` of a command-line `main()`
   deriving DecidableEq, Repr
 
 /-- argument of an opaque plug-in -/
@@ -317,6 +340,32 @@ def formatNameCall (F : Fns) (w : World) (key : FmtKey) : World × MRes Err Str 
   | (.raised e, fc, sc) => ({ w with fmtCache := fc, splitCache := sc }, .raised e)
   | (.internal, fc, sc) => ({ w with fmtCache := fc, splitCache := sc }, .internal)
 
+/-- The `format.name$` built-in itself (after the committed repair a9f9a7a):
+
+    if not 1 <= n <= len(_split_names(names)):
+        print_warning('there is no name number ...')     # report_error(BibTeXError(...))
+        i.push('')
+        return
+    i.push(_format_name(names, n, format))
+
+`1 <= n <= len(...)` is a chained comparison: for `n < 1` the name list is not looked at; otherwise
+`_split_names(names)` is called BEFORE the formatter's cache is consulted (so the name-splitting
+cache is touched also on a hit of the formatter's cache); a name number outside `1..count` is
+reported and stands for the empty string — the indexing `[n - 1]` inside the memoised body is then
+never out of range. -/
+def formatNameBuiltin (F : Fns) (w : World) (key : FmtKey) : World × MRes Err Str :=
+  if key.n < 1 then
+    reportK w (.noSuchName key.n key.names) (.raised (.noSuchName key.n key.names)) fun w1 => (w1, .val [])
+  else
+    match splitCall F w.splitCache key.names with
+    | (.val l, sc1) =>
+      if key.n ≤ (l.length : Int) then formatNameCall F { w with splitCache := sc1 } key
+      else
+        reportK { w with splitCache := sc1 } (.noSuchName key.n key.names)
+          (.raised (.noSuchName key.n key.names)) fun w1 => (w1, .val [])
+    | (.raised e, sc1) => ({ w with splitCache := sc1 }, .raised e)
+    | (.internal, sc1) => ({ w with splitCache := sc1 }, .internal)
+
 /-! ## `find_plugin` (pybtex/plugin/__init__.py) -/
 
 /-- `_load_entry_point`: run-time registry first, then the installed entry points. -/
@@ -332,7 +381,7 @@ def runProg (F : Fns) (w : World) : Prog → World × Result
   | .raise e => (w, .raised e)
   | .report e k => reportK w e (.raised e) fun w1 => runProg F w1 k
   | .formatName key k =>
-    match formatNameCall F w key with
+    match formatNameBuiltin F w key with
     | (w1, .val s) => runProg F w1 (k s)
     | (w1, .raised e) => (w1, .raised e)
     | (w1, .internal) => (w1, .internal)
@@ -349,6 +398,25 @@ def newReaderFrom (t : Table) : Reader := { macros := ciCopy t, entries := [], p
 
 /-- `Parser(...)` with the default `macros=month_names`: a copy of the module table. -/
 def newReader (w : World) : Reader := newReaderFrom w.months
+
+/-- `Parser(wanted_entries=cits)`: `BibliographyData.__init__` builds TWO new sets from the caller's list
+(`wanted_entries`, `citations`); in a `CaseInsensitiveSet` the spelling added last wins. -/
+def newReaderWanted (w : World) (cits : List Str) : Reader :=
+  { newReader w with
+    wanted := some (cits.foldl (fun s k => if s.contains (lower k) then s else s ++ [lower k]) []),
+    citations := cits.foldl (fun d k => dset d (lower k) k) [] }
+
+/-- `BibliographyData.want_entry(key)` -/
+def wantEntry (r : Reader) (key : Str) : Bool :=
+  match r.wanted with
+  | none => true
+  | some s => s.contains (lower key) || s.contains ['*']
+
+/-- `BibliographyData.get_canonical_key(key)`: the caller's spelling of a cited key -/
+def canonicalKey (r : Reader) (key : Str) : Str :=
+  match dget r.citations (lower key) with
+  | some k => k
+  | none => key
 
 /-- `parse_value` under a `Parser`: `value_parts.append(...)` part by part; an undefined macro is
 reported (`handle_error` = `report_error`) and stands for the empty string; a raise ends the run.
@@ -400,11 +468,22 @@ def processFields (F : Fns) (persons : Bool) (w : World) (key : Str) (seen : Lis
       processFields F persons w key (lower name :: seen)
         { e with fields := e.fields ++ [(name, v.flatten)] } fs
 
-/-- `BibliographyData.add_entry` (no `wanted_entries`): keys compare case-insensitively. -/
+/-- `BibliographyData.add_entry`: an entry that is not wanted is dropped silently; keys compare
+case-insensitively; the entry is stored under the caller's spelling of its key; the target of its
+`crossref` field becomes wanted (`self.wanted_entries.add(crossref)`, when reading is filtered). -/
 def addEntry (w : World) (r : Reader) (e : Entry) : World × Except Err Reader :=
-  if (r.entries.map fun x => lower x.key).contains (lower e.key) then
+  if !wantEntry r e.key then (w, .ok r)
+  else if (r.entries.map fun x => lower x.key).contains (lower e.key) then
     reportK w (.duplicateEntry e.key) (.error (.duplicateEntry e.key)) fun w1 => (w1, .ok r)
-  else (w, .ok { r with entries := r.entries ++ [e] })
+  else
+    let r1 := { r with entries := r.entries ++ [{ e with key := canonicalKey r e.key }] }
+    (w, .ok
+      (match r.wanted, dget (e.fields.map fun p => (lower p.1, p.2)) "crossref".toList with
+       | some s, some x => { r1 with wanted := some (if s.contains (lower x) then s else s ++ [lower x]) }
+       | _, _ => r1))
+
+/-- `'unnamed-%i' % self.unnamed_entry_counter` -/
+def unnamedKey (n : Nat) : Str := "unnamed-".toList ++ (toString n).toList
 
 /-- one command: `LowLevelParser.parse_command` with the reader's table, then the `Parser` loop body -/
 def readCmd (F : Fns) (persons : Bool) (w : World) (r : Reader) : Cmd → World × Except Err Reader
@@ -415,10 +494,22 @@ def readCmd (F : Fns) (persons : Bool) (w : World) (r : Reader) : Cmd → World 
     bindE (evalParts (fun m => dget r.macros (lower m)) w [] val) fun w1 v =>
       (w1, .ok { r with preamble := r.preamble ++ [v.flatten] })
   | .entry type key fields =>
+    -- `parse_entry_body`: the field values of an entry that is not wanted are parsed too, but
+    -- `substitute_macro` reports an undefined macro only `if self.want_current_entry()`; then the
+    -- entry is skipped (`SkipEntry`): nothing of it is observable in this abstraction
+    if !wantEntry r key then (w, .ok r)
+    else
+      bindE (evalFields (fun m => dget r.macros (lower m)) w [] fields) fun w1 fs =>
+        bindE (processFields F persons w1 key []
+                { key := key, type := lower type, fields := [], persons := [] } fs) fun w2 e =>
+          addEntry w2 r e
+  | .keyless type fields =>
+    -- `current_entry_key` stays `None`: `want_current_entry()` is true, undefined macros are reported;
+    -- `process_entry` names the entry and advances the counter BEFORE `add_entry` (which may drop it)
     bindE (evalFields (fun m => dget r.macros (lower m)) w [] fields) fun w1 fs =>
-      bindE (processFields F persons w1 key []
-              { key := key, type := lower type, fields := [], persons := [] } fs) fun w2 e =>
-        addEntry w2 r e
+      bindE (processFields F persons w1 (unnamedKey r.unnamed) []
+              { key := unnamedKey r.unnamed, type := lower type, fields := [], persons := [] } fs) fun w2 e =>
+        addEntry w2 { r with unnamed := r.unnamed + 1 } e
 
 /-- `Parser.parse_string` on one file -/
 def readDoc (F : Fns) (persons : Bool) (w : World) (r : Reader) : Doc → World × Except Err Reader
@@ -429,6 +520,14 @@ def readDoc (F : Fns) (persons : Bool) (w : World) (r : Reader) : Doc → World 
 def readFiles (F : Fns) (persons : Bool) (w : World) (r : Reader) : List Doc → World × Except Err Reader
   | [] => (w, .ok r)
   | d :: ds => bindE (readDoc F persons w r d) fun w1 r1 => readFiles F persons w1 r1 ds
+
+/-- `BaseParser.parse_files` as on the PINNED tree, where `Parser.parse_string` began every file
+with `self.unnamed_entry_counter = 1` (before proposed_fixes/C18-4.diff).  Not used by `step`; kept so
+that the failure is expressible (`Props/C18.lean`, `C18_keyless_accumulate_neg_pinned`). -/
+def readFilesPinned (F : Fns) (persons : Bool) (w : World) (r : Reader) : List Doc → World × Except Err Reader
+  | [] => (w, .ok r)
+  | d :: ds =>
+    bindE (readDoc F persons w { r with unnamed := 1 } d) fun w1 r1 => readFilesPinned F persons w1 r1 ds
 
 /-! ## Direct use of `LowLevelParser` -/
 
@@ -480,6 +579,13 @@ def lowDoc (t : Table) : Doc → Table × Except Err (List LowCmd)
       match lowDoc t cs with
       | (t1, .ok l) => (t1, .ok (.entry type key fs :: l))
       | (t1, .error e) => (t1, .error e)
+  | .keyless type fields :: cs =>
+    match lowFields t fields with
+    | .error e => (t, .error e)
+    | .ok fs =>
+      match lowDoc t cs with
+      | (t1, .ok l) => (t1, .ok (.keyless type fs :: l))
+      | (t1, .error e) => (t1, .error e)
 
 /-! ## The public calls -/
 
@@ -492,6 +598,9 @@ inductive Call where
   /-- `pybtex.database.parse_string/parse_file(…, 'bibtex')`, `Parser().parse_files(files)`:
   ONE reader over the files -/
   | parse (files : List Doc)
+  /-- the same with `wanted_entries=cits` (`parse_string(text, 'bibtex', wanted_entries=cits)`,
+  `Parser(wanted_entries=cits).parse_files(files)`): reading filtered by a citation list -/
+  | parseWanted (cits : List Str) (files : List Doc)
   /-- `list(LowLevelParser(text[, macros=…]))` -/
   | lowLevel (arg : MacroArg) (doc : Doc)
   /-- the `format.name$` built-in -/
@@ -506,6 +615,20 @@ inductive Call where
   | capture (c : Call)
   /-- `errors.set_strict_mode(False); try: c; finally: errors.set_strict_mode(<as before>)` -/
   | nonstrict (c : Call)
+  /-- a command-line entry point called IN-PROCESS (`pybtex.database.convert.__main__.main()`,
+  `pybtex.database.format.__main__.main()`, `pybtex.__main__.main()`: `CommandLine.__call__` →
+  `CommandLine.main`), `sys.argv` holding `--strict` or not; `c` is what `run()` does.
+  The result is the exit status (`SystemExit.code`). -/
+  | cliMain (strictOpt : Bool) (c : Call)
+
+/-- `CommandLine.__call__` around `main()`: what `run()` returned is dropped and the status is
+`errors.error_code`; a pybtex exception gives status 1; a non-pybtex exception (`IndexError`)
+passes through. -/
+def exitStatus (errorCode : Nat) : Result → Result
+  | .raised .indexError => .raised .indexError
+  | .raised _ => .exit 1
+  | .internal => .internal
+  | _ => .exit errorCode
 
 /-- read `files` with the fresh built-in reader `r0`, then continue -/
 def withReader (F : Fns) (persons : Bool) (w : World) (r0 : Reader) (files : List Doc)
@@ -521,6 +644,13 @@ def step (F : Fns) (w : World) : Call → World × Result
     | some cls =>
       if cls = bibtexParserCls then withReader F true w (newReader w) files (fun w1 r => (w1, .reader r))
       else runProg F w (F.plugin cls (.docs files))
+  | .parseWanted cits files =>
+    match findPlugin F w inputGroup bibtexName with
+    | none => (w, .raised (.pluginNotFound inputGroup bibtexName))
+    | some cls =>
+      if cls = bibtexParserCls then
+        withReader F true w (newReaderWanted w cits) files (fun w1 r => (w1, .reader r))
+      else runProg F w (F.plugin cls (.docs files))
   | .lowLevel arg doc =>
     match arg with
     | .default =>                       -- C18-1: `macros = dict(month_names)` when omitted
@@ -533,7 +663,7 @@ def step (F : Fns) (w : World) : Call → World × Result
       let r := lowDoc t doc
       (w, match r.2 with | .ok l => .low l r.1 | .error e => .raised e)
   | .formatName key =>
-    match formatNameCall F w key with
+    match formatNameBuiltin F w key with
     | (w1, .val s) => (w1, .str s)
     | (w1, .raised e) => (w1, .raised e)
     | (w1, .internal) => (w1, .internal)
@@ -563,6 +693,14 @@ def step (F : Fns) (w : World) : Call → World × Result
   | .nonstrict c =>
     let r := step F { w with strict := false } c
     ({ r.1 with strict := w.strict }, r.2)
+  | .cliMain strictOpt c =>
+    -- `CommandLine.main` (proposed_fixes/C18-3.diff):
+    --     strict = errors.strict; errors.error_code = 0; errors.set_strict_mode(False)
+    --     try: parse_args (`--strict` calls set_strict_mode(True)); self.run(...); sys.exit(errors.error_code)
+    --     finally: errors.set_strict_mode(strict)
+    -- `CommandLine.__call__`: a PybtexError that escapes is printed and the status is 1.
+    let r := step F { w with errorCode := 0, strict := strictOpt } c
+    ({ r.1 with strict := w.strict }, exitStatus r.1.errorCode r.2)
 
 /-- the world after a history of calls -/
 def run (F : Fns) (w : World) : List Call → World
@@ -580,6 +718,15 @@ def Call.isPublic : Call → Bool
   | .lowLevel .moduleTable _ => false
   | .capture c => c.isPublic
   | .nonstrict c => c.isPublic
+  | .cliMain _ c => c.isPublic
   | _ => true
+
+/-- What `CommandLine.main` did on the PINNED tree (before proposed_fixes/C18-3.diff): the strict
+mode is set and never put back, and the exit status is the process-wide sticky `error_code`.
+Not part of `step`; kept so that the failure of the property is expressible
+(`Props/C18.lean`, `C18_cli_main_neg_pinned`). -/
+def cliMainPinned (F : Fns) (w : World) (strictOpt : Bool) (c : Call) : World × Result :=
+  let r := step F { w with strict := strictOpt } c
+  (r.1, exitStatus r.1.errorCode r.2)
 
 end Pybtex.Proc
